@@ -718,7 +718,10 @@ def _read_set(ctx: ReaderContext) -> lset.PersistentSet:
     assert start == "{"
 
     def set_if_valid(s: Collection) -> lset.PersistentSet:
-        coll_set = set(s)
+        try:
+            coll_set = set(s)
+        except TypeError as e:
+            raise ctx.syntax_error("Set members must be hashable") from e
         if len(s) != len(coll_set):
             dupes = ", ".join(
                 lrepr(k) for k, v in collections.Counter(s).items() if v > 1
@@ -835,7 +838,11 @@ def _read_namespaced_map(ctx: ReaderContext) -> lmap.PersistentMap:
                 "be specified as keywords without namespaces"
             )
 
-    _consume_whitespace(ctx)
+    char = _consume_whitespace(ctx)
+    if char == "":
+        raise ctx.eof_error("Unexpected EOF in namespaced map")
+    if char != "{":
+        raise ctx.syntax_error(f"Expected '{{' after map namespace; got '{char}'")
 
     return _read_map(ctx, namespace=map_ns)
 
@@ -957,6 +964,8 @@ def _read_unicode_escape_seq(ctx: ReaderContext) -> str:
     unicode_escape_seq: list[str] = []
     while True:
         char = reader.peek()
+        if char == "":
+            raise ctx.eof_error("Unexpected EOF in unicode escape sequence")
         if not hex_chars.match(char):
             reader.pushback()
             break
@@ -969,7 +978,12 @@ def _read_unicode_escape_seq(ctx: ReaderContext) -> str:
             f"Unicode escape sequence must be exactly 4 or 8 hex digits; got '{unicode_hex}'"
         )
 
-    return chr(int(unicode_hex, base=16))
+    try:
+        return chr(int(unicode_hex, base=16))
+    except (OverflowError, ValueError) as e:
+        raise ctx.syntax_error(
+            f"Unicode escape sequence '{unicode_hex}' is not a valid code point"
+        ) from e
 
 
 def _read_str(ctx: ReaderContext, raw_string: bool = False) -> str:
@@ -984,6 +998,8 @@ def _read_str(ctx: ReaderContext, raw_string: bool = False) -> str:
             raise ctx.eof_error("Unexpected EOF in string")
         if char == "\\":
             char = reader.next_char()
+            if char == "":
+                raise ctx.eof_error("Unexpected EOF in string")
             if raw_string:
                 s.append("\\")
             elif (escape_char := _STR_ESCAPE_CHARS.get(char, None)) is not None:
@@ -1014,6 +1030,8 @@ def _read_fstr(ctx: ReaderContext) -> str | llist.PersistentList:
             raise ctx.eof_error("Unexpected EOF in string")
         if char == "\\":
             char = reader.next_char()
+            if char == "":
+                raise ctx.eof_error("Unexpected EOF in string")
             if (escape_char := _STR_ESCAPE_CHARS.get(char, None)) is not None:
                 s.append(escape_char)
                 continue
@@ -1063,6 +1081,8 @@ def _read_hex_byte(ctx: ReaderContext) -> bytes:
     reader = ctx.reader
     c1 = reader.next_char()
     c2 = reader.next_char()
+    if c1 == "" or c2 == "":
+        raise ctx.eof_error("Unexpected EOF in byte string")
     try:
         return bytes([int(f"0x{c1}{c2}", base=16)])
     except ValueError as e:
@@ -1090,9 +1110,11 @@ def _read_byte_str(ctx: ReaderContext) -> bytes:
         if char == "":
             raise ctx.eof_error("Unexpected EOF in byte string")
         if ord(char) < 1 or ord(char) > 127:
-            raise ctx.eof_error("Byte strings must contain only ASCII characters")
+            raise ctx.syntax_error("Byte strings must contain only ASCII characters")
         if char == "\\":
             char = reader.next_char()
+            if char == "":
+                raise ctx.eof_error("Unexpected EOF in byte string")
             escape_char = _BYTES_ESCAPE_CHARS.get(char, None)
             if escape_char:
                 b.append(escape_char)
@@ -1506,6 +1528,9 @@ def _read_character(ctx: ReaderContext) -> str:
         char = reader.next_char()
         is_first_char = False
 
+    if not s:
+        raise ctx.eof_error("Unexpected EOF in character literal")
+
     character = "".join(s)
     special = _SPECIAL_CHARS.get(character, None)
     if special is not None:
@@ -1716,6 +1741,12 @@ def _resolve_tagged_literal(
             return data_reader(v)
         except SyntaxError as e:
             raise ctx.syntax_error(e.message).with_traceback(e.__traceback__) from None
+        except (TypeError, ValueError) as e:
+            if s in ctx.data_readers:
+                raise
+            raise ctx.syntax_error(
+                f"Invalid form for builtin data reader tag #{s}: {e}"
+            ) from e
     elif s.ns is None and "." in s.name:
         return _load_record_or_type(ctx, s, v)
     else:
@@ -1746,6 +1777,8 @@ def _read_var_macro(ctx: ReaderContext) -> llist.PersistentList:
     assert ctx.reader.peek() == "'"
     ctx.reader.advance()
     char_next = ctx.reader.peek()
+    if char_next == "":
+        raise ctx.eof_error("Unexpected EOF in var quote")
     if char_next == "~":
         s = _read_unquote(ctx)
     else:
@@ -1767,6 +1800,8 @@ def _read_reader_conditional_macro(ctx: ReaderContext) -> LispReaderForm:
     conditionals."""
     try:
         return _read_reader_conditional(ctx)
+    except UnexpectedEOFError as e:
+        raise ctx.eof_error(e.message).with_traceback(e.__traceback__) from None
     except SyntaxError as e:
         raise ctx.syntax_error(e.message).with_traceback(e.__traceback__) from None
 
@@ -1808,6 +1843,8 @@ def _read_reader_macro(ctx: ReaderContext) -> LispReaderForm:
 
         return _resolve_tagged_literal(ctx, s, v)
 
+    if char == "":
+        raise ctx.eof_error("Unexpected EOF in reader macro")
     raise ctx.syntax_error(f"Unexpected char '{char}' in reader macro")
 
 
@@ -1817,7 +1854,9 @@ def _read_next_consuming_comment(ctx: ReaderContext) -> RawReaderForm:
     while True:
         v = _read_next(ctx)
         if v is ctx.eof:
-            return cast(RawReaderForm, ctx.eof)
+            # Every caller has consumed a prefix (quote, deref, unquote, metadata,
+            # tag, ...) which still owes a form
+            raise ctx.eof_error("Unexpected EOF: expected a form")
         if v is COMMENT or isinstance(v, Comment):
             continue
         return v
